@@ -237,7 +237,14 @@ def selftests(ctx, tspec, trace, corruptions, acc):
     with ThreadPoolExecutor(max_workers=len(corruptions)) as ex:
         futs = [ex.submit(common.selftest_binding, ctx, tspec, trace, [c]) for c in corruptions]
         for f in futs:
-            acc.selftest += f.result()
+            try:
+                acc.selftest += f.result()
+            except vlib.Infra as e:
+                # traces of a tree that already violates the property may not contain what a corruption
+                # needs (no completion to duplicate, ...): the verdict stands, the self-test is moot
+                if 'no corruption applicable' in str(e) and ctx.violations:
+                    continue
+                raise
 
 
 class Acc:
@@ -439,7 +446,7 @@ def run(ctx, selftest=False):
     ctx.cov['coverage_zero_actions'] = []   # phase_mc_* raise when a -coverage run has an action with zero count
     # binding self-tests of both trace specs ran inside the phases
     ctx.cov['binding_selftest'] = acc.selftest
-    if len(acc.selftest) < 6:
+    if len(acc.selftest) < 6 and not ctx.violations:
         raise vlib.Infra('binding self-test: only %d corruptions applied' % len(acc.selftest))
     ctx.assumptions += ['akitabench mini engine and fake connection stand in for akita SerialEngine/DirectConnection',
                         'port hooks observe every message of the components (akita v4.9.0 defaultPort)',
